@@ -202,6 +202,9 @@ def real_diff(expr, var):
     """ORACLE: the partial derivative of the REAL function (symbols without assumptions given real=True first, then named back)."""
     import sympy
 
+    d = sympy.diff(expr, var)
+    if not d.has(sympy.Derivative):
+        return d  # sympy's own derivative is in closed form: it IS the derivative of the real function wherever that is differentiable
     J, rs = scenarios.real_jacobian(sympy.Matrix([expr]), [var])
     return J[0, 0].xreplace({v: k for k, v in rs.items()})
 
@@ -212,7 +215,7 @@ def corpus(seed, n, ekf=True):
     out = []
     for t in range(n):
         shp = shapes[t % len(shapes)]
-        out.append((scenarios.Scenario(shp[0], shp[1], shp[2], shp[3], seed=seed + 31 * t, transcendental=(t % 4 == 3), share_reading=True, rational=(t % 3 == 1), nonsmooth=(t % 5 == 2)), shp))
+        out.append((scenarios.Scenario(shp[0], shp[1], shp[2], shp[3], seed=seed + 31 * t, transcendental=(t % 4 == 3), share_reading=True, rational=(t % 3 == 1), nonsmooth=(t % 5 == 2), magnitude=(t % 6 == 4)), shp))
     return out
 
 
